@@ -10,6 +10,8 @@ CONSTANTS
   FileLayer = TRUE
   SilentRelease = FALSE
   ForgetsHandle = TRUE
+  MaxMigrate = 2
+  RegisterOnce = FALSE
 SPECIFICATION FairSpec
 INVARIANTS Safe
 PROPERTIES NoLeakLive
